@@ -151,7 +151,9 @@ impl MsgSpec {
 
 #[derive(Clone, Debug, Serialize, Deserialize, PartialEq)]
 pub enum Op {
-    Execute { by: Who, msgs: Vec<MsgSpec> },
+    /// `funds`: coins attached to the call (denom index, amount); they play no role in authorisation or
+    /// in what an allowance is charged
+    Execute { by: Who, msgs: Vec<MsgSpec>, #[serde(default)] funds: Vec<(u8, u8)> },
     Freeze { by: Who },
     UpdateAdmins { by: Who, admins: Vec<u8> },
     Increase { by: Who, spender: Sp, denom: Den, amt: Amt, exp: Option<ExpSpec> },
@@ -184,6 +186,28 @@ pub struct Case {
     /// the proxy's own admin list. The role gives no rights inside the contract.
     #[serde(default)]
     pub chain_admin: Option<u8>,
+    /// who instantiates the proxy (sender index; N_ACTORS = the legacy default) and with which coins
+    /// attached: neither gives the creator any role
+    #[serde(default = "default_creator")]
+    pub creator: u8,
+    #[serde(default)]
+    pub init_funds: Vec<(u8, u8)>,
+}
+
+fn default_creator() -> u8 {
+    N_ACTORS as u8
+}
+
+fn attached() -> BoxedStrategy<Vec<(u8, u8)>> {
+    prop_oneof![6 => Just(vec![]), 1 => proptest::collection::vec((0u8..3, 1u8..30), 1..=2)].boxed()
+}
+
+fn attached_coins(f: &[(u8, u8)]) -> Vec<Coin> {
+    let mut m: BTreeMap<&str, u128> = BTreeMap::new();
+    for (d, a) in f {
+        *m.entry(DENOMS[*d as usize % 3]).or_insert(0) += *a as u128;
+    }
+    m.into_iter().map(|(d, a)| Coin::new(a, d)).collect()
 }
 
 // ---------------------------------------------------------------- strategies
@@ -393,14 +417,14 @@ fn op_group(prop: &str, subkeys: bool) -> BoxedStrategy<Vec<Op>> {
         8 => proptest::collection::vec(msg_spec(mw), 2..=5),
     ];
     let arms: Vec<(u32, BoxedStrategy<Vec<Op>>)> = vec![
-        (w.exec, one((exec_who, msgs).prop_map(|(by, msgs)| Op::Execute { by, msgs }).boxed())),
+        (w.exec, one((exec_who, msgs, attached()).prop_map(|(by, msgs, funds)| Op::Execute { by, msgs, funds }).boxed())),
         (w.mixed, one((who(0, 12, 1, 0, 1), proptest::collection::vec(grantable_msg(), 1..=3), msg_spec(MsgWeights { send: 6, burn: 4, staking: 1, distr: 2, other: 1 }))
             .prop_map(|(by, mut msgs, last)| {
                 msgs.push(last);
-                Op::Execute { by, msgs }
+                Op::Execute { by, msgs, funds: vec![] }
             })
             .boxed())),
-        (w.covered, one((who(0, 12, 0, 0, 1), proptest::collection::vec(grantable_msg(), 1..=4)).prop_map(|(by, msgs)| Op::Execute { by, msgs }).boxed())),
+        (w.covered, one((who(0, 12, 0, 0, 1), proptest::collection::vec(grantable_msg(), 1..=4), attached()).prop_map(|(by, msgs, funds)| Op::Execute { by, msgs, funds }).boxed())),
         (w.freeze, one(who(6, 2, 2, 2, 2).prop_map(|by| Op::Freeze { by }).boxed())),
         (w.upd, one((who(8, 1, 1, 3, 2), admin_list()).prop_map(|(by, admins)| Op::UpdateAdmins { by, admins }).boxed())),
         (w.incr, one((admin_who(), sp(), denom_grant(), amt_grant(), prop_oneof![2 => Just(None), 3 => exp_spec().prop_map(Some)]).prop_map(|(by, spender, denom, amt, exp)| Op::Increase { by, spender, denom, amt, exp }).boxed())),
@@ -413,7 +437,7 @@ fn op_group(prop: &str, subkeys: bool) -> BoxedStrategy<Vec<Op>> {
                 vec![
                     Op::Increase { by: Who::Admin(0), spender: Sp::NonAdmin(s), denom: denom.clone(), amt: Amt::Abs(g1), exp: Some(e1) },
                     Op::Advance { blocks: adv, secs: adv as u16 * 5 },
-                    Op::Execute { by: Who::NonAdmin(s), msgs },
+                    Op::Execute { by: Who::NonAdmin(s), msgs, funds: vec![] },
                     Op::Increase { by: Who::Admin(0), spender: Sp::NonAdmin(s), denom, amt: Amt::Abs(g2), exp: Some(e2) },
                 ]
             })
@@ -468,7 +492,7 @@ pub fn case_strategy(prop: &str, tier: Tier) -> BoxedStrategy<Case> {
                 p
             });
             let probes = proptest::collection::vec(probe(subkeys), n_probes..=n_probes);
-            (admin_list(), proptest::bool::weighted(p_mutable), ops, probes, proptest::option::weighted(0.5, 0u8..N_ACTORS as u8)).prop_map(move |(admins, mutable, ops, probes, chain_admin)| Case { subkeys, admins, mutable, ops, probes, chain_admin })
+            (admin_list(), proptest::bool::weighted(p_mutable), ops, probes, proptest::option::weighted(0.5, 0u8..N_ACTORS as u8), 0u8..N_SENDERS as u8, attached()).prop_map(move |(admins, mutable, ops, probes, chain_admin, creator, init_funds)| Case { subkeys, admins, mutable, ops, probes, chain_admin, creator, init_funds })
         })
         .boxed()
 }
@@ -537,7 +561,11 @@ struct World {
 }
 
 fn exec_on(d: &mut Direct, subkeys: bool, sender: &Addr, call: &Call) -> Result<Response, String> {
-    let info = Direct::info(sender, &[]);
+    exec_with(d, subkeys, sender, call, &[])
+}
+
+fn exec_with(d: &mut Direct, subkeys: bool, sender: &Addr, call: &Call, funds: &[Coin]) -> Result<Response, String> {
+    let info = Direct::info(sender, funds);
     if subkeys {
         let msg: SubExec<Empty> = match call.clone() {
             Call::Execute(msgs) => SubExec::Execute { msgs },
@@ -913,7 +941,7 @@ pub fn run_case(prop: &str, case: &Case, ctx: &mut CaseCtx) -> Result<(), Violat
     let addr_of = |i: u8| -> String { if i as usize == N_ADDR { w.d.contract.to_string() } else { w.addrs[i as usize % N_ADDR].clone() } };
     let init_admins: Vec<String> = case.admins.iter().map(|i| addr_of(*i)).collect();
     {
-        let info = Direct::info(&w.senders[N_ACTORS], &[]);
+        let info = Direct::info(&w.senders[case.creator as usize % N_SENDERS], &attached_coins(&case.init_funds));
         let msg = InstantiateMsg { admins: init_admins.clone(), mutable: case.mutable };
         let r = if case.subkeys {
             w.d.tx(|deps, env| cw1_subkeys::contract::instantiate(deps, env, info, msg))
@@ -927,6 +955,14 @@ pub fn run_case(prop: &str, case: &Case, ctx: &mut CaseCtx) -> Result<(), Violat
         ctx.count("init_accepted");
     }
     let mut pre = w.observe().map_err(qerr)?;
+    // the proxy starts out exactly as requested: the listed admins, the requested mutability, and no
+    // allowance or permission for anybody (whoever instantiated it, with whatever coins attached)
+    if matches!(prop, "C17" | "C08") {
+        let fresh = (0..N_SENDERS).all(|i| pre.allow[i] == Vis::none());
+        if pre.admins != init_admins || pre.mutable != case.mutable || !fresh {
+            return Err(v(prop, "instantiate-not-as-requested", format!("after instantiate by sender{} with funds {:?}: admins {:?} (requested {:?}), mutable {} (requested {}), allowances {:?}", case.creator as usize % N_SENDERS, case.init_funds, pre.admins, init_admins, pre.mutable, case.mutable, pre.allow)));
+        }
+    }
     let mut t = Track::default();
     for i in 0..N_SENDERS {
         if pre.is_admin(w.senders[i].as_str()) {
@@ -940,6 +976,7 @@ pub fn run_case(prop: &str, case: &Case, ctx: &mut CaseCtx) -> Result<(), Violat
 
     for (step_no, op) in case.ops.iter().enumerate() {
         // ------------ resolve
+        let mut step_funds: Vec<Coin> = vec![];
         let step: Step = match op {
             Op::Upgrade { from } => {
                 if !w.subkeys {
@@ -984,7 +1021,8 @@ pub fn run_case(prop: &str, case: &Case, ctx: &mut CaseCtx) -> Result<(), Violat
                 pre = post;
                 continue;
             }
-            Op::Execute { by, msgs } => {
+            Op::Execute { by, msgs, funds } => {
+                step_funds = attached_coins(funds);
                 let sender = resolve_who(by, &w, &pre, &t);
                 let mut b = Builder { w: &w, allow: &pre.allow[sender], used: BTreeMap::new() };
                 let built: Vec<CosmosMsg> = msgs.iter().map(|m| b.build(m)).collect();
@@ -1037,7 +1075,7 @@ pub fn run_case(prop: &str, case: &Case, ctx: &mut CaseCtx) -> Result<(), Violat
         }
 
         // ------------ run
-        let res = exec_on(&mut w.d, w.subkeys, &sender_addr, &step.call);
+        let res = exec_with(&mut w.d, w.subkeys, &sender_addr, &step.call, &step_funds);
         let ok = res.is_ok();
         let post = w.observe().map_err(qerr)?;
         ctx.count(&format!("op_{kname}_{}", if ok { "ok" } else { "fail" }));
@@ -1711,19 +1749,21 @@ fn d_group(u: &mut arbitrary::Unstructured, prop: &str, subkeys: bool) -> Vec<Op
                 1 => 1,
                 _ => 2 + arb_below(u, 4),
             };
-            Op::Execute { by, msgs: (0..n).map(|_| d_msg(u, mw)).collect() }
+            let msgs = (0..n).map(|_| d_msg(u, mw)).collect();
+            Op::Execute { by, msgs, funds: d_attached(u) }
         }
         1 => {
             let by = d_who(u, 0, 12, 1, 0, 1);
             let n = 1 + arb_below(u, 3);
             let mut msgs: Vec<MsgSpec> = (0..n).map(|_| d_grantable(u)).collect();
             msgs.push(d_msg(u, MsgWeights { send: 6, burn: 4, staking: 1, distr: 2, other: 1 }));
-            Op::Execute { by, msgs }
+            Op::Execute { by, msgs, funds: vec![] }
         }
         2 => {
             let by = d_who(u, 0, 12, 0, 0, 1);
             let n = 1 + arb_below(u, 4);
-            Op::Execute { by, msgs: (0..n).map(|_| d_grantable(u)).collect() }
+            let msgs = (0..n).map(|_| d_grantable(u)).collect();
+            Op::Execute { by, msgs, funds: d_attached(u) }
         }
         3 => Op::Freeze { by: d_who(u, 6, 2, 2, 2, 2) },
         4 => Op::UpdateAdmins { by: d_who(u, 8, 1, 1, 3, 2), admins: d_admin_list(u) },
@@ -1746,7 +1786,7 @@ fn d_group(u: &mut arbitrary::Unstructured, prop: &str, subkeys: bool) -> Vec<Op
             return vec![
                 Op::Increase { by: Who::Admin(0), spender: Sp::NonAdmin(s), denom: denom.clone(), amt: Amt::Abs(g1), exp: Some(e1) },
                 Op::Advance { blocks: adv, secs: adv as u16 * 5 },
-                Op::Execute { by: Who::NonAdmin(s), msgs },
+                Op::Execute { by: Who::NonAdmin(s), msgs, funds: vec![] },
                 Op::Increase { by: Who::Admin(0), spender: Sp::NonAdmin(s), denom, amt: Amt::Abs(g2), exp: Some(e2) },
             ];
         }
@@ -1755,6 +1795,14 @@ fn d_group(u: &mut arbitrary::Unstructured, prop: &str, subkeys: bool) -> Vec<Op
 }
 
 /// Byte decoder for the cw1 family: same shape as `case_strategy(prop, Tier::Quick)`.
+fn d_attached(u: &mut arbitrary::Unstructured) -> Vec<(u8, u8)> {
+    if arb_bool(u, 1, 7) {
+        (0..1 + arb_below(u, 2)).map(|_| (arb_below(u, 3) as u8, 1 + arb_below(u, 29) as u8)).collect()
+    } else {
+        vec![]
+    }
+}
+
 pub fn decode_case(prop: &str, u: &mut arbitrary::Unstructured) -> Case {
     let subkeys = match prop {
         "C08" => true,
@@ -1798,5 +1846,7 @@ pub fn decode_case(prop: &str, u: &mut arbitrary::Unstructured) -> Case {
         })
         .collect();
     let chain_admin = if arb_bool(u, 1, 2) { Some(arb_below(u, N_ACTORS) as u8) } else { None };
-    Case { subkeys, admins, mutable, ops, probes, chain_admin }
+    let creator = arb_below(u, N_SENDERS) as u8;
+    let init_funds = d_attached(u);
+    Case { subkeys, admins, mutable, ops, probes, chain_admin, creator, init_funds }
 }
